@@ -70,6 +70,8 @@ def check(run):
         rng.shuffle(lv)
         lv = lv[:700]
     stim = [oc.hist_to_stimulus(h, i + 1, "boxed", run.seed, table) for i, h in enumerate(lv)]
+    stim = oc.with_same_waker_variants(stim, 50000)
+    run.cov["same_waker_repoll_variants"] = sum(1 for s in stim if "repoll" in s["receiver"])
     recs = oc.run_harness(wd, "edge", stim)
     ends = [r for r in recs if r["ev"] == "end"]
     sdrift = sum(1 for e in ends if e["drift"] > 0)
